@@ -116,6 +116,7 @@ def run(ctx):
     # same-named imported symbols (values used as bounds, types) in different modules vs the same types written inline
     from .. import samename
     samename.run(ctx, 'C11', ctx.rng, ctx.n(5, 60))
+    samename.run_named(ctx, 'C11', ctx.rng, ctx.n(6, 60))
     # value ranges / SIZE written at the point of use of a shared referenced type, for members that share a name
     from .. import aliasfam
     aliasfam.run_c11(ctx, ctx.rng, ctx.n(50, 600), impl, ['ber', 'uper', 'oer', 'jer'])
